@@ -62,6 +62,8 @@ int main(int argc, char** argv) {
       perturb_case(pseed, pointProb, spinProb, 30);
       uint64_t calls = 0;
       bool bad       = false;
+      // busy-wait (burnPower) mode across regions with changing thread counts, without beKind() in between
+      bool fastSeq = rng.below(3) == 0;
       std::atomic<uint32_t> cnt[64];
       std::atomic<uint32_t> wrongTid{0}, wrongNum{0}, outside{0};
       std::atomic<int> active{0};
@@ -70,6 +72,8 @@ int main(int argc, char** argv) {
         for (auto& c : cnt)
           c.store(0);
         galois::setActiveThreads(n);
+        if (fastSeq)
+          tp.burnPower(n);
         bool slowOne = rng.below(3) == 0;
         unsigned slowTid = (unsigned)rng.below(n);
         active.store(1);
@@ -108,16 +112,21 @@ int main(int argc, char** argv) {
           bad = true;
         }
       }
+      if (fastSeq)
+        tp.beKind();
       unsigned mx = *std::max_element(ns.begin(), ns.end());
-      H.end(k, std::string(comp) + "|" + jarr(ns) + "|s" + std::to_string(nsock), mx >= 2 && nreg >= 2,
-            J().kv("invocations", calls).kv("regions", nreg).kv("multi_socket_cases", (int)(nsock > 1 && mx > 1)).str());
+      H.end(k, std::string(comp) + (fastSeq ? ":burnPower" : "") + "|" + jarr(ns) + "|s" + std::to_string(nsock), mx >= 2 && nreg >= 2,
+            J().kv("invocations", calls).kv("regions", nreg).kv("burnpower_sequences", (int)fastSeq)
+                .kv("multi_socket_cases", (int)(nsock > 1 && mx > 1)).str());
       continue;
     }
 
     // -------------------------------------------------- do_all
     unsigned nreg = 1 + (unsigned)rng.below(3);
     // describe all regions up front
+    bool fastDoAll = rng.below(6) == 0; // burnPower mode across the regions of this case
     struct Reg {
+      unsigned fillMode; // InsertBag: 0 blocks over all fill threads, 1 thread 0 inserts nothing, 2 only the last thread, 3 random owner
       unsigned kind, threads, ci, fillThreads;
       bool steal;
       uint32_t n, extra, base;
@@ -145,6 +154,7 @@ int main(int argc, char** argv) {
       }
       g.extra       = (g.kind == K_SUBRANGE || g.kind == K_SPECIFIC) ? (uint32_t)rng.range(0, 40) : 0;
       g.delayMode   = (unsigned)rng.below(4); // 0 none, 1 one thread's block slow, 2 random sparse, 3 last elements slow
+      g.fillMode    = (unsigned)rng.below(4);
       g.fillThreads = g.threads;
       if (g.kind == K_INSERTBAG && rng.below(3) == 0)
         g.fillThreads = 1 + (unsigned)rng.below(maxT); // filled by a different number of threads
@@ -155,7 +165,7 @@ int main(int argc, char** argv) {
       if (desc.size() > 1)
         desc += ",";
       desc += J().kv("range", kindName(g.kind)).kv("n", g.n).kv("threads", g.threads).kv("steal", g.steal)
-                  .kv("chunk", CHUNKS[g.ci]).kv("delay", g.delayMode).kv("fill_threads", g.fillThreads).str();
+                  .kv("chunk", CHUNKS[g.ci]).kv("delay", g.delayMode).kv("fill_threads", g.fillThreads).kv("fill_mode", g.fillMode).str();
     }
     desc += "]";
     H.hangKey = "C03:do_all:hang";
@@ -199,12 +209,32 @@ int main(int argc, char** argv) {
       if (g.kind == K_INSERTBAG) {
         d.bag = &bag;
         galois::setActiveThreads(g.fillThreads);
+        if (fastDoAll) // in busy-wait mode every region must run with the thread count burnPower was given
+          tp.burnPower(g.fillThreads);
         unsigned FT = g.fillThreads;
         uint32_t n  = g.n;
+        unsigned fm = g.fillMode;
+        uint64_t fseed = rng.next();
         galois::on_each([&](unsigned tid, unsigned numT) {
-          auto r = galois::block_range((uint32_t)0, n, tid, numT);
-          for (uint32_t i = r.first; i < r.second; ++i)
-            bag.push(i);
+          if (fm == 0 || numT == 1) {
+            auto r = galois::block_range((uint32_t)0, n, tid, numT);
+            for (uint32_t i = r.first; i < r.second; ++i)
+              bag.push(i);
+          } else if (fm == 1) { // thread 0's list stays empty
+            if (tid == 0)
+              return;
+            auto r = galois::block_range((uint32_t)0, n, tid - 1, numT - 1);
+            for (uint32_t i = r.first; i < r.second; ++i)
+              bag.push(i);
+          } else if (fm == 2) { // everything in the last thread's list
+            if (tid + 1 == numT)
+              for (uint32_t i = 0; i < n; ++i)
+                bag.push(i);
+          } else { // random owner per element
+            for (uint32_t i = 0; i < n; ++i)
+              if (mix(fseed, i) % numT == tid)
+                bag.push(i);
+          }
         }, galois::no_stats());
         galois::setActiveThreads(g.threads);
       }
@@ -249,6 +279,8 @@ int main(int argc, char** argv) {
         }
       }
       RunFn f = lookup(g.kind, g.steal, g.ci);
+      if (fastDoAll)
+        tp.burnPower(g.threads);
       c.active.store(1);
       f(c, &d);
       c.active.store(0);
@@ -299,8 +331,12 @@ int main(int argc, char** argv) {
       sig += std::string("|") + kindName(g.kind) + "," + std::to_string(g.n) + "," + std::to_string(g.threads) + "," +
              (g.steal ? "s" : "n") + std::to_string(CHUNKS[g.ci]) + ",u" + std::to_string(used.size());
     }
+    if (fastDoAll)
+      tp.beKind();
+    if (fastDoAll)
+      sig += "|burnPower";
     H.end(k, sig, nontrivial,
-          J().kv("invocations", calls).kv("regions", nreg).kv("stolen_elements", stolen)
+          J().kv("invocations", calls).kv("regions", nreg).kv("stolen_elements", stolen).kv("burnpower_sequences", (int)fastDoAll)
               .kv("multi_socket_cases", msCases).str());
   }
   return 0;
